@@ -1,6 +1,8 @@
 package props
 
 import (
+	"bytes"
+	"runtime"
 	"context"
 	"encoding/binary"
 	"fmt"
@@ -717,4 +719,92 @@ func FuzzC11CellBlock(f *testing.F) {
 			s.DeserializeCellBlocks(&pb.ScanResponse{CellsPerResult: []uint32{uint32(count), 1}, PartialFlagPerResult: []bool{true, false}}, in)
 		}
 	})
+}
+
+// ---- client-level decoders: what the callers' own goroutines do with bytes from the servers
+
+type c11cCase struct {
+	// Kind: "increment" (the value of the returned cell has IncLen bytes) | "scan" (a C06 scan whose
+	// server also sends zero-cell partial results ahead of a row's first fragment)
+	Kind   string   `json:"kind"`
+	IncLen int      `json:"inc_len,omitempty"`
+	Batch  bool     `json:"batch,omitempty"`
+	Scan   scanCase `json:"scan,omitempty"`
+}
+
+func c11cRun(c c11cCase) (out Outcome) {
+	if c.Kind == "scan" {
+		o := scanRun(c.Scan)
+		if o.Sig != "" {
+			o.Sig = "client-decoder:" + o.Sig
+		}
+		o.NonTrivial = true
+		o.Labels = append(o.Labels, "scan_with_leading_empty_partials")
+		return o
+	}
+	var o Outcome
+	res := inBubble(theT, func() { o = c11cIncInBubble(c) })
+	if so, stuck := stuckVerdict(res); stuck {
+		return so
+	}
+	if res.Panic != "" {
+		return viol("panic@"+topFrame(res.Stack), "an increment answered with a %d-byte value: %s\n%s", c.IncLen, res.Panic, res.Stack)
+	}
+	return o
+}
+
+func c11cIncInBubble(c c11cCase) (out Outcome) {
+	l := layoutSpec{Table: "t", NServers: 1}
+	cl := l.build()
+	cl.IncValue = bytes.Repeat([]byte{0x01}, c.IncLen)
+	client := newSimClient(cl)
+	defer func() {
+		client.Close()
+		drainClient()
+		cl.Stop()
+	}()
+	var v int64
+	var err error
+	func() {
+		defer func() {
+			if p := recover(); p != nil {
+				buf := make([]byte, 1<<14)
+				out = viol("panic@"+topFrame(string(buf[:runtime.Stack(buf, false)])), "Increment answered with a %d-byte counter value panicked in the caller's goroutine: %v", c.IncLen, p)
+			}
+		}()
+		call, _ := hrpc.NewIncSingle(context.Background(), []byte("t"), []byte("row"), "f", "mkinc", 1)
+		v, err = client.Increment(call)
+	}()
+	if out.Sig != "" {
+		return out
+	}
+	if c.IncLen == 8 {
+		if err != nil || v != 0x0101010101010101 {
+			return viol("increment-wrong", "a well-formed increment answer returned (%d, %v)", v, err)
+		}
+	} else if err == nil {
+		return viol("malformed-accepted", "an increment answered with a %d-byte value returned %d without an error", c.IncLen, v)
+	}
+	out.NonTrivial = c.IncLen != 8
+	out.Labels = append(out.Labels, "increment_value_len")
+	return out
+}
+
+func TestC11_ClientDecoders(t *testing.T) {
+	theT = t
+	rec := evid.New("C11", "TestC11_ClientDecoders",
+		"rapid: decoding that happens in the CALLER's goroutine. (a) whole client against the simulated cluster: an Increment whose "+
+			"answer carries a counter cell of 0..12 bytes (8 is well-formed) - error, never a panic; (b) the real scanner against the "+
+			"model server of C06 which additionally sends zero-cell partial results ahead of a row's first fragment (structurally valid, "+
+			"inconsistent with the data) - the C06 oracle still holds and nothing panics. Non-trivial = every case except the "+
+			"well-formed increment; distinct by case hash")
+	Drive(t, rec, true, func(t *rapid.T) c11cCase {
+		if rapid.IntRange(0, 4).Draw(t, "inc") == 0 {
+			return c11cCase{Kind: "increment", IncLen: rapid.IntRange(0, 12).Draw(t, "len")}
+		}
+		sc := scanCase{Spec: scanSpecGen(t), End: scanEnding{Kind: "exhaust"}}
+		sc.Spec.EmptyFirst = true
+		sc.Spec.Twice = false
+		return c11cCase{Kind: "scan", Scan: sc}
+	}, c11cRun)
 }
